@@ -191,6 +191,26 @@ def run_case(case):
             out = "exn NodeOverrideError"
         res.emit("bin.set 0 %s %s" % (hx(k), hx(v)), out)
     rng = common.mk_rng(case["fseed"], "forge")
+    if db and rng.random() < 0.3:
+        # a stored VALUE that is byte for byte the hash of a node in the same database (an account trie storing the root of a
+        # storage trie that lives in the same db; here: the hash of one of this trie's own nodes, and the root of a second trie
+        # written into the same dict). Values are never followed: get_trie_nodes / witnesses must not walk into them
+        # (seeded change C13q-trie-nodes-follows-leaf-value-as-hash)
+        side = BinaryTrie(db)
+        side.set(b"\x55\x01", b"side-one")
+        side.set(b"\x55\x02", b"side-two")
+        res.emit("bin.new", "1")
+        res.emit("bin.set 1 5501 %s" % hx(b"side-one"), "ok")
+        res.emit("bin.set 1 5502 %s" % hx(b"side-two"), "ok")
+        for k, v in [(b"\x66\x01", side.root_hash), (b"\x66\x02", rng.choice(sorted(db)))]:
+            try:
+                t.set(k, v)
+                out = "ok"
+                model[k] = v
+            except NodeOverrideError:
+                out = "exn NodeOverrideError"
+            res.emit("bin.set 0 %s %s" % (hx(k), hx(v)), out)
+        res.tags.add("value-equals-hash-of-a-stored-node")
     root = t.root_hash
     # another trie for foreign nodes
     odb = {}
